@@ -434,6 +434,37 @@ fn run(op: &Value) -> Value {
                 json!({"ok": if special { got.as_deref() == Some(text.as_str()) } else { got.is_none() }, "got": got})
             }
         }
+        "gen_enum" => {
+            let text = String::from_utf8(hex(op["text_hex"].as_str().unwrap())).unwrap_or_default();
+            let doc = serde_json::to_string(&text).unwrap();
+            fn show<T: std::fmt::Debug, E>(r: Result<T, E>) -> String { match r { Ok(v) => { let s = format!("{:?}", v); s.replace("Unknown(Unknown(Variant(\"", "Unknown(").replace("\")))", ")") } Err(_) => "err".to_string() } }
+            let d = show(verif_types::types::p::TestEnum::from_str(&text));
+            let e = show(verif_types::exhaustive_types::p::TestEnum::from_str(&text));
+            let dj = show(conjure_serde::json::client_from_str::<verif_types::types::p::TestEnum>(&doc));
+            let ej = show(conjure_serde::json::client_from_str::<verif_types::exhaustive_types::p::TestEnum>(&doc));
+            let dp = show(<verif_types::types::p::TestEnum as FromPlain>::from_plain(&text));
+            let round = verif_types::types::p::TestEnum::from_str(&text).ok().map(|v| v.as_str() == text && v.to_plain() == text && conjure_serde::json::to_string(&v).unwrap() == doc);
+            json!({"default": d, "exhaustive": e, "default_json": dj, "exhaustive_json": ej, "default_plain": dp, "roundtrip": round,
+                   "consistent": d == dj && e == ej && d == dp && round != Some(false)})
+        }
+        "gen_union" | "gen_object" => {
+            let doc = op["doc"].as_str().unwrap();
+            fn showu<T: std::fmt::Debug, E: std::fmt::Display>(r: Result<T, E>) -> String {
+                match r { Ok(v) => { let s = format!("{:?}", v); if s.starts_with("Unknown(") { let t = s.split("type_: \"").nth(1).and_then(|x| x.split('"').next()).unwrap_or("?"); format!("Unknown({})", t) } else { s.split('(').next().unwrap_or("").to_string() } } Err(_) => "err".to_string() }
+            }
+            if name == "gen_union" {
+                let d = conjure_serde::json::client_from_str::<verif_types::types::p::TestUnion>(doc);
+                let reser = d.as_ref().ok().map(|v| conjure_serde::json::to_string(v).unwrap());
+                let e = conjure_serde::json::client_from_str::<verif_types::exhaustive_types::p::TestUnion>(doc);
+                let ds = conjure_serde::json::server_from_str::<verif_types::types::p::TestUnion>(doc);
+                json!({"default": showu(d), "exhaustive": showu(e), "default_server": showu(ds), "reserialized": reser})
+            } else {
+                let d = conjure_serde::json::server_from_str::<verif_types::types::p::ObjAll>(doc);
+                let reser = d.as_ref().ok().map(|v| conjure_serde::json::to_string(v).unwrap());
+                let e = conjure_serde::json::server_from_str::<verif_types::exhaustive_types::p::ObjAll>(doc);
+                json!({"default": if d.is_ok() { "ok" } else { "err" }, "exhaustive": if e.is_ok() { "ok" } else { "err" }, "reserialized": reser})
+            }
+        }
         _ => json!({"error": format!("unknown op {}", name)}),
     }
 }
